@@ -465,6 +465,47 @@ func RunStore(o *drv.Out, lim *limiter) {
 				rec("reopen", fmt.Sprintf("version %d", st.Version()))
 			}
 		}
+		type q struct {
+			k          c08.UKey
+			val        []byte
+			membership bool
+		}
+		// ask: NewReadOnly(vn) on the live store, its Root(), GetProof and VerifyProof against the root committed for vn
+		ask := func(vn uint64, root []byte, qs []q, window string) {
+			for _, x := range qs {
+				m := "n"
+				if x.membership {
+					m = "m"
+				}
+				op := fmt.Sprintf("sproof %d %s %s %s", vn, drv.Hex(x.k.User), drv.Hex(x.val), m)
+				res := storeProof(st, vn, x.k.User, x.val, x.membership, root)
+				rec(op, res)
+				o.Count("sproof:" + mode + window + ":" + m + ":" + res[strings.LastIndex(res, " ")+1:])
+				o.Nontrivial(fmt.Sprintf("store|%d|%s%s", ci, op, window))
+				rootOK := strings.HasPrefix(res, "roroot "+drv.Hex(root)+" ")
+				if strings.HasSuffix(res, "verdict accept") && rootOK {
+					continue
+				}
+				suffix := ""
+				if mode != "memtable" {
+					suffix = ":after-" + mode
+				}
+				if window != "" {
+					suffix = window // the live store holds an uncommitted block whose root was already computed
+				}
+				sig := "C16:served-proof-does-not-verify" + suffix
+				if !rootOK {
+					sig = "C16:readonly-root-differs-from-committed" + suffix
+				}
+				if mode == "memtable" && window == "" && !rootOK {
+					sig = "C16:readonly-store-proof-prefix" // the read-only store does not even see the committed tree
+				}
+				lim.fail(sig,
+					fmt.Sprintf("NewReadOnly(%d) [%s%s]: Root()/GetProof(%x) against the root Commit() returned for version %d (%s, committed root %x): %s",
+						vn, mode, window, x.k.User, vn, m, root, res[:min(len(res), 120)]),
+					map[string]any{"history": hist, "between_commit_and_read": mode, "window": window})
+			}
+		}
 		var vs []uint64
 		for vn := range versions {
 			vs = append(vs, vn)
@@ -473,11 +514,6 @@ func RunStore(o *drv.Out, lim *limiter) {
 		for _, vn := range vs {
 			vv := versions[vn]
 			// every key of the state at vn (membership), every key deleted at vn and a few never-written keys (non-membership)
-			type q struct {
-				k          c08.UKey
-				val        []byte
-				membership bool
-			}
 			var qs []q
 			var idx []int
 			for i := range vv.state {
@@ -497,36 +533,63 @@ func RunStore(o *drv.Out, lim *limiter) {
 					n++
 				}
 			}
-			for _, x := range qs {
-				m := "n"
-				if x.membership {
-					m = "m"
-				}
-				op := fmt.Sprintf("sproof %d %s %s %s", vn, drv.Hex(x.k.User), drv.Hex(x.val), m)
-				res := storeProof(st, vn, x.k.User, x.val, x.membership, vv.root)
-				rec(op, res)
-				o.Count("sproof:" + mode + ":" + m + ":" + res[strings.LastIndex(res, " ")+1:])
-				o.Nontrivial(fmt.Sprintf("store|%d|%s", ci, op))
-				rootOK := strings.HasPrefix(res, "roroot "+drv.Hex(vv.root)+" ")
-				if strings.HasSuffix(res, "verdict accept") && rootOK {
-					continue
-				}
-				suffix := ""
-				if mode != "memtable" {
-					suffix = ":after-" + mode
-				}
-				sig := "C16:served-proof-does-not-verify" + suffix
-				if !rootOK {
-					sig = "C16:readonly-root-differs-from-committed" + suffix
-				}
-				if mode == "memtable" && !rootOK {
-					sig = "C16:readonly-store-proof-prefix" // the read-only store does not even see the committed tree
-				}
-				lim.fail(sig,
-					fmt.Sprintf("NewReadOnly(%d) [%s]: Root()/GetProof(%x) against the root Commit() returned for version %d (%s, committed root %x): %s",
-						vn, mode, x.k.User, vn, m, vv.root, res[:min(len(res), 120)]),
-					map[string]any{"history": hist, "between_commit_and_read": mode})
+			ask(vn, vv.root, qs, "")
+		}
+		// THE BLOCK IN PROGRESS: writes for height V+1 are pending and Store.Root() was computed (ApplyBlock does, before
+		// Commit): in that window a read-only store for the last committed height V must still serve V's root and proofs
+		{
+			V := st.Version()
+			vv := versions[V]
+			var qs []q
+			var idx []int
+			for i := range vv.state {
+				idx = append(idx, i)
 			}
+			sort.Ints(idx)
+			for n, i := range idx {
+				k := u.Keys[i]
+				qs = append(qs, q{k, vv.state[i], true})
+				switch n % 3 {
+				case 0:
+					st.Delete(k.User)
+					rec("del "+drv.Hex(k.User), "ok")
+				case 1:
+					val := []byte{0xBB, byte(n)}
+					st.Set(k.User, val)
+					rec("set "+drv.Hex(k.User)+" "+drv.Hex(val), "ok")
+				}
+			}
+			for n := 0; n < 6; {
+				i := r.Intn(len(u.Keys))
+				if _, ok := vv.state[i]; !ok && !u.Reserved(u.Keys[i].Bits) && !u.Border[u.Keys[i].Bits] {
+					val := []byte{0xCC, byte(n)}
+					st.Set(u.Keys[i].User, val)
+					rec("set "+drv.Hex(u.Keys[i].User)+" "+drv.Hex(val), "ok")
+					qs = append(qs, q{u.Keys[i], nil, false}) // absent at V, written by the block in progress
+					n++
+				}
+			}
+			next, e := st.Root()
+			if e != nil {
+				panic(e)
+			}
+			rec("root", "root "+drv.Hex(next)+" l0 same")
+			ask(V, vv.root, qs, ":during-pending-block")
+			if V > 1 {
+				pv := versions[V-1]
+				var pq []q
+				var pidx []int
+				for i := range pv.state {
+					pidx = append(pidx, i)
+				}
+				sort.Ints(pidx)
+				for _, i := range pidx[:min(3, len(pidx))] {
+					pq = append(pq, q{u.Keys[i], pv.state[i], true})
+				}
+				ask(V-1, pv.root, pq, ":during-pending-block")
+			}
+			st.Reset()
+			rec("reset", "ok")
 		}
 		st.DB().Close()
 	}
